@@ -754,6 +754,11 @@ def _check(case, ctx):
         return {"nontrivial": nt, "classes": classes}
     finally:
         shutil.rmtree(sd, ignore_errors=True)
+        if replay:       # a replay process exits without the worker's clean-up: leave no empty scratch directory behind
+            try:
+                os.rmdir(ctx.scratch)
+            except OSError:
+                pass
 
 
 def run(ctx):
